@@ -560,7 +560,8 @@ def hdrUnified (last : Format) (st : HState) (p : Patch) (line : Bytes) : Option
   if p.format = .unknown ∨ p.format = .unified then
     if last = .unified ∧ (startsWith line "+" ∨ startsWith line "-" ∨ startsWith line " ") then
       (some ({ st with patch := { p with oldPath := p.newPath, newPath := p.oldPath,
-                                         oldTime := p.newTime, newTime := p.oldTime, format := .unified } }, false), st)
+                                         oldTime := p.newTime, newTime := p.oldTime, format := .unified },
+                       foundFirstHunk := true }, false), st)
     else
       let (ok, h') := parseUnifiedRange st.hunk line
       let st' := { st with hunk := h' }
@@ -571,7 +572,7 @@ def hdrUnified (last : Format) (st : HState) (p : Patch) (line : Bytes) : Option
 def hdrNormal (last : Format) (st : HState) (p : Patch) (line : Bytes) : Option (HState × Bool) × HState :=
   if p.format = .unknown ∨ p.format = .normal then
     if last = .normal ∧ (startsWith line "> " ∨ startsWith line "< ") then
-      (some ({ st with patch := { p with format := .normal, newPath := [], oldPath := [] } }, false), st)
+      (some ({ st with patch := { p with format := .normal, newPath := [], oldPath := [] }, foundFirstHunk := true }, false), st)
     else
       let (ok, h') := parseNormalRange st.hunk line
       let st' := { st with hunk := h' }
@@ -588,7 +589,7 @@ def hdrContext (last : Format) (st : HState) (p : Patch) (line : Bytes) : Except
           if ok then { st.hunk with old := { st.hunk.old with start := s } } else st.hunk
         else st.hunk
       let hunk'' := ctxLookahead (st.par.s.rest.length + 1) st.par hunk'
-      .ok ({ st with patch := { p with format := .context }, hunk := hunk'' }, false)
+      .ok ({ st with patch := { p with format := .context }, hunk := hunk'', foundFirstHunk := true }, false)
     else if startsWith line "***************" then
       .ok ({ st with thisLooks := .context, ltfh := st.lines }, true)
     else .ok (st, true)
@@ -637,7 +638,8 @@ theorem headerStep_eq (st0 : HState) (line : Bytes) (strip : Int) :
        | some r =>
          if st.isGit then .ok ({ st with ltfh := st.lines, shouldParseBody := false }, false)
          else (parseGitHeaderName r strip).map fun name =>
-           ({ st with patch := { p with oldPath := name, newPath := name, format := .unified }, isGit := true }, true)
+           ({ st with patch := { p with oldPath := name, newPath := name, format := .unified }, isGit := true,
+                      ltfh := st.lines + 1 }, true)
        | none => hdrTail last st line strip) := by
   unfold headerStep
   rfl
@@ -818,6 +820,366 @@ theorem parseHeader_le (par : Parser) (patch : Patch) (strip : Int) (body : Bool
         rcases hinv with h | h
         · exact h
         · omega
+
+/-! ### the header scan: git sections and the first hunk -/
+
+/-- the fields the pass-through states of the tail of `headerStep` leave alone -/
+def Good2 (L : Nat) (G : Bool) (lt : Nat) (F : Bool) (x : HState) : Prop :=
+  x.lines = L ∧ x.isGit = G ∧ x.ltfh = lt ∧ x.foundFirstHunk = F ∧ x.thisLooks = .unknown
+
+/-- … and a result of the tail (`last`: what the line before looked like): line count and git flag stay; the first-hunk
+    line is the old one or — this line being a range line or a git extended header — this line or the next; the
+    "looks like" marker is set only together with "first hunk on this line"; the first-hunk flag is set only by a result
+    that leaves the loop with one of the three hunk formats, after a line that looked like a range -/
+def Res2 (last : Format) (L : Nat) (G : Bool) (lt : Nat) (F : Bool) (r : HState × Bool) : Prop :=
+  r.1.lines = L ∧ r.1.isGit = G ∧ (r.1.ltfh = lt ∨ r.1.ltfh = L ∨ r.1.ltfh = L + 1) ∧
+    (r.1.thisLooks = .unknown ∨ r.1.ltfh = L) ∧
+    (r.1.foundFirstHunk = F ∨
+      (r.2 = false ∧ r.1.foundFirstHunk = true ∧ last ≠ .unknown ∧ r.1.ltfh = lt ∧
+        (r.1.patch.format = .unified ∨ r.1.patch.format = .normal ∨ r.1.patch.format = .context)))
+
+theorem Good2.res {last L G lt F} {x : HState} (h : Good2 L G lt F x) (c : Bool) : Res2 last L G lt F (x, c) :=
+  ⟨h.1, h.2.1, Or.inl h.2.2.1, Or.inl h.2.2.2.2, Or.inl h.2.2.2.1⟩
+
+theorem hdrUnified_good2 {L G lt F} (last : Format) (st : HState) (p : Patch) (line : Bytes) (hg : Good2 L G lt F st) :
+    Good2 L G lt F (hdrUnified last st p line).2 ∧
+      ∀ res, (hdrUnified last st p line).1 = some res → Res2 last L G lt F res := by
+  unfold hdrUnified
+  simp only []
+  split
+  · split
+    · rename_i hl
+      refine ⟨hg, ?_⟩
+      intro res hr; simp only [Option.some.injEq] at hr; subst hr
+      exact ⟨hg.1, hg.2.1, Or.inl hg.2.2.1, Or.inl hg.2.2.2.2,
+        Or.inr ⟨rfl, rfl, by rw [hl.1]; decide, hg.2.2.1, Or.inl rfl⟩⟩
+    · split
+      · refine ⟨hg, ?_⟩
+        intro res hr; simp only [Option.some.injEq] at hr; subst hr
+        exact ⟨hg.1, hg.2.1, Or.inr (Or.inl hg.1), Or.inr hg.1, Or.inl hg.2.2.2.1⟩
+      · exact ⟨hg, by intro res hr; simp at hr⟩
+  · exact ⟨hg, by intro res hr; simp at hr⟩
+
+theorem hdrNormal_good2 {L G lt F} (last : Format) (st : HState) (p : Patch) (line : Bytes) (hg : Good2 L G lt F st) :
+    Good2 L G lt F (hdrNormal last st p line).2 ∧
+      ∀ res, (hdrNormal last st p line).1 = some res → Res2 last L G lt F res := by
+  unfold hdrNormal
+  simp only []
+  split
+  · split
+    · rename_i hl
+      refine ⟨hg, ?_⟩
+      intro res hr; simp only [Option.some.injEq] at hr; subst hr
+      exact ⟨hg.1, hg.2.1, Or.inl hg.2.2.1, Or.inl hg.2.2.2.2,
+        Or.inr ⟨rfl, rfl, by rw [hl.1]; decide, hg.2.2.1, Or.inr (Or.inl rfl)⟩⟩
+    · split
+      · refine ⟨hg, ?_⟩
+        intro res hr; simp only [Option.some.injEq] at hr; subst hr
+        exact ⟨hg.1, hg.2.1, Or.inr (Or.inl hg.1), Or.inr hg.1, Or.inl hg.2.2.2.1⟩
+      · exact ⟨hg, by intro res hr; simp at hr⟩
+  · exact ⟨hg, by intro res hr; simp at hr⟩
+
+theorem hdrContext_good2 {L G lt F} (last : Format) (st : HState) (p : Patch) (line : Bytes) (hg : Good2 L G lt F st)
+    (res : HState × Bool) (h : hdrContext last st p line = .ok res) : Res2 last L G lt F res := by
+  unfold hdrContext at h
+  simp only [] at h
+  split at h
+  · split at h
+    · rename_i hl
+      simp only [Except.ok.injEq] at h; subst h
+      exact ⟨hg.1, hg.2.1, Or.inl hg.2.2.1, Or.inl hg.2.2.2.2,
+        Or.inr ⟨rfl, rfl, by rw [hl.1]; decide, hg.2.2.1, Or.inr (Or.inr rfl)⟩⟩
+    · split at h
+      · simp only [Except.ok.injEq] at h; subst h
+        exact ⟨hg.1, hg.2.1, Or.inr (Or.inl hg.1), Or.inr hg.1, Or.inl hg.2.2.2.1⟩
+      · simp only [Except.ok.injEq] at h; subst h; exact hg.res _
+  · simp only [Except.ok.injEq] at h; subst h; exact hg.res _
+
+theorem hdrTail_good2 {L G lt F} (last : Format) (st : HState) (line : Bytes) (strip : Int) (hg : Good2 L G lt F st)
+    (res : HState × Bool) (h : hdrTail last st line strip = .ok res) : Res2 last L G lt F res := by
+  unfold hdrTail at h
+  simp only [] at h
+  split at h
+  · simp at h
+  · simp only [Except.ok.injEq] at h; subst h
+    exact ⟨hg.1, hg.2.1, Or.inr (Or.inr (by rw [← hg.1])), Or.inl hg.2.2.2.2, Or.inl hg.2.2.2.1⟩
+  · rename_i p' _
+    have h1 := hdrUnified_good2 (L := L) (G := G) (lt := lt) (F := F) last { st with patch := p' } p' line hg
+    revert h h1
+    generalize hdrUnified last { st with patch := p' } p' line = r1
+    rcases r1 with ⟨_ | res1, st1⟩
+    · intro h h1
+      simp only [] at h h1
+      have h2 := hdrNormal_good2 (L := L) (G := G) (lt := lt) (F := F) last st1 p' line h1.1
+      revert h h2
+      generalize hdrNormal last st1 p' line = r2
+      rcases r2 with ⟨_ | res2, st2⟩
+      · intro h h2
+        simp only [] at h h2
+        exact hdrContext_good2 last st2 p' line h2.1 res h
+      · intro h h2
+        simp only [Except.ok.injEq] at h; subst h
+        exact h2.2 _ rfl
+    · intro h h1
+      simp only [Except.ok.injEq] at h; subst h
+      exact h1.2 _ rfl
+
+/-- what one step of the header scan does to the line count, the git flag, the first-hunk line, the "looks like" marker
+    and the first-hunk flag: either the git flag stays and the first-hunk line is the old one, this line or the next;
+    or this is the first `diff --git` line of the section and the first-hunk line is the line after it -/
+def StepInv2 (st st' : HState) (c : Bool) : Prop :=
+  st'.lines = st.lines + 1 ∧
+  ((st'.isGit = st.isGit ∧ (st'.ltfh = st.ltfh ∨ st'.ltfh = st.lines + 1 ∨ st'.ltfh = st.lines + 2)) ∨
+   (st.isGit = false ∧ st'.isGit = true ∧ st'.ltfh = st.lines + 2)) ∧
+  (st'.thisLooks = .unknown ∨ st'.ltfh = st.lines + 1) ∧
+  (st'.foundFirstHunk = st.foundFirstHunk ∨
+    (c = false ∧ st'.foundFirstHunk = true ∧ st.thisLooks ≠ .unknown ∧ st'.ltfh = st.ltfh ∧
+      (st'.patch.format = .unified ∨ st'.patch.format = .normal ∨ st'.patch.format = .context)))
+
+theorem headerStep_inv2 (st : HState) (line : Bytes) (strip : Int) (st' : HState) (c : Bool)
+    (h : headerStep st line strip = .ok (st', c)) : StepInv2 st st' c := by
+  rw [headerStep_eq] at h
+  simp only [] at h
+  split at h
+  · obtain ⟨a, _, ha⟩ := map_ok h
+    simp only [Prod.mk.injEq] at ha
+    obtain ⟨rfl, rfl⟩ := ha
+    exact ⟨rfl, Or.inl ⟨rfl, Or.inl rfl⟩, Or.inl rfl, Or.inl rfl⟩
+  · split at h
+    · obtain ⟨a, _, ha⟩ := map_ok h
+      simp only [Prod.mk.injEq] at ha
+      obtain ⟨rfl, rfl⟩ := ha
+      exact ⟨rfl, Or.inl ⟨rfl, Or.inl rfl⟩, Or.inl rfl, Or.inl rfl⟩
+    · split at h
+      · obtain ⟨a, _, ha⟩ := map_ok h
+        simp only [Prod.mk.injEq] at ha
+        obtain ⟨rfl, rfl⟩ := ha
+        exact ⟨rfl, Or.inl ⟨rfl, Or.inl rfl⟩, Or.inl rfl, Or.inl rfl⟩
+      · split at h
+        · obtain ⟨a, _, ha⟩ := map_ok h
+          simp only [Prod.mk.injEq] at ha
+          obtain ⟨rfl, rfl⟩ := ha
+          exact ⟨rfl, Or.inl ⟨rfl, Or.inl rfl⟩, Or.inl rfl, Or.inl rfl⟩
+        · split at h
+          · split at h
+            · simp only [Except.ok.injEq, Prod.mk.injEq] at h
+              obtain ⟨rfl, rfl⟩ := h
+              exact ⟨rfl, Or.inl ⟨rfl, Or.inr (Or.inl rfl)⟩, Or.inl rfl, Or.inl rfl⟩
+            · rename_i hgit
+              obtain ⟨a, _, ha⟩ := map_ok h
+              simp only [Prod.mk.injEq] at ha
+              obtain ⟨rfl, rfl⟩ := ha
+              exact ⟨rfl, Or.inr ⟨by simpa using hgit, rfl, rfl⟩, Or.inl rfl, Or.inl rfl⟩
+          · have := hdrTail_good2 (L := st.lines + 1) (G := st.isGit) (lt := st.ltfh) (F := st.foundFirstHunk)
+              _ _ _ _ (by exact ⟨rfl, rfl, rfl, rfl, rfl⟩) _ h
+            exact ⟨this.1, Or.inl ⟨this.2.1, this.2.2.1⟩, this.2.2.2.1, this.2.2.2.2⟩
+
+/-- the invariant of the header scan: inside a git section at least the `diff --git` line has been counted and belongs
+    to the header (`ltfh ≥ 2`, so the re-read skips at least that line); a line that looks like a range is the candidate
+    for the first-hunk line; and the first-hunk flag is set only together with one of the three hunk formats and a
+    first-hunk line -/
+def ScanInv (st : HState) : Prop :=
+  (st.isGit = true → 1 ≤ st.lines ∧ 2 ≤ st.ltfh) ∧
+  (st.thisLooks ≠ .unknown → st.ltfh = st.lines ∧ 1 ≤ st.lines) ∧
+  (st.foundFirstHunk = true →
+    1 ≤ st.ltfh ∧ (st.patch.format = .unified ∨ st.patch.format = .normal ∨ st.patch.format = .context))
+
+theorem headerStep_scanInv (st : HState) (line : Bytes) (strip : Int) (st' : HState) (c : Bool)
+    (h : headerStep st line strip = .ok (st', c)) (hi : ScanInv st) (hf : st.foundFirstHunk = false) :
+    ScanInv st' ∧ (c = true → st'.foundFirstHunk = false) := by
+  obtain ⟨h1, h2, h3, h4⟩ := headerStep_inv2 st line strip st' c h
+  refine ⟨⟨?_, ?_, ?_⟩, ?_⟩
+  · intro hg
+    rcases h2 with ⟨e, hl⟩ | ⟨_, _, hl⟩
+    · have := hi.1 (e ▸ hg); omega
+    · omega
+  · intro hl
+    rcases h3 with e | e
+    · exact absurd e hl
+    · omega
+  · intro hfound
+    rcases h4 with e | ⟨_, _, hlast, hlt, hfmt⟩
+    · rw [e, hf] at hfound; cases hfound
+    · have := hi.2.1 hlast
+      exact ⟨by omega, hfmt⟩
+  · intro hc
+    rcases h4 with e | ⟨e, _⟩
+    · rw [e, hf]
+    · rw [hc] at e; cases e
+
+theorem headerLoop_scanInv (strip : Int) : ∀ (fuel : Nat) (st st' : HState),
+    ScanInv st → st.foundFirstHunk = false → headerLoop strip fuel st = .ok st' → ScanInv st' := by
+  intro fuel
+  induction fuel with
+  | zero => intro st st' hi _ h; simp [headerLoop] at h; subst h; exact hi
+  | succ fuel ih =>
+    intro st st' hi hf h
+    rw [headerLoop] at h
+    split at h
+    · simp only [Except.ok.injEq] at h; subst h; exact hi
+    · rename_i l par1 _
+      split at h
+      · simp at h
+      · rename_i st1 hstep
+        have := headerStep_scanInv _ _ _ _ _ hstep hi hf
+        exact ih st1 st' this.1 (this.2 rfl) h
+      · rename_i st1 hstep
+        simp only [Except.ok.injEq] at h; subst h
+        exact (headerStep_scanInv _ _ _ _ _ hstep hi hf).1
+
+theorem opAdjust_format (p : Patch) (a b : Prop) [Decidable a] [Decidable b] :
+    (if p.operation = .change then
+        (if a then { p with operation := .delete } else if b then { p with operation := .add } else p)
+      else p).format = p.format := by
+  split
+  · split
+    · rfl
+    · split <;> rfl
+  · rfl
+
+/-- **a git header is consumed**: when the header scan returns a git patch, the first hunk (or the next section) is at
+    least on the second line of the section — the `diff --git` line always belongs to the header — so the parser is left
+    strictly after the start of the section -/
+theorem parseHeader_git (par : Parser) (patch : Patch) (strip : Int) (body : Bool) (p : Patch) (info : HeaderInfo) (par' : Parser)
+    (h : parseHeader par patch strip = .ok (body, p, info, par')) (hg : p.format = .git) :
+    info.format = .git ∧ 2 ≤ info.linesTillFirstHunk ∧ len par' < len par := by
+  have hle := (parseHeader_le par patch strip body p info par' h).1
+  unfold parseHeader at h
+  simp only [] at h
+  split at h
+  · simp at h
+  · rename_i st hl
+    have hinv := headerLoop_scanInv strip _ _ _ ⟨by simp, by simp, by simp⟩ rfl hl
+    split at h
+    · simp at h
+    · rename_i par2 hsk
+      simp only [Except.ok.injEq, Prod.mk.injEq] at h
+      obtain ⟨_, hp, hi, _⟩ := h
+      subst hi
+      have hfmt : p.format = (if st.isGit then { st.patch with format := .git }
+             else if !st.foundFirstHunk then { st.patch with format := .unknown } else st.patch).format := by
+        rw [← hp]; exact opAdjust_format _ _ _
+      rw [hg] at hfmt
+      have hgit : st.isGit = true := by
+        cases hgi : st.isGit with
+        | true => rfl
+        | false =>
+          exfalso
+          rw [hgi] at hfmt
+          cases hff : st.foundFirstHunk with
+          | false => rw [hff] at hfmt; simp at hfmt
+          | true =>
+            rw [hff] at hfmt
+            have := (hinv.2.2 hff).2
+            simp only [Bool.false_eq_true, if_false, Bool.not_true] at hfmt
+            rw [← hfmt] at this; simp at this
+      have h2 := (hinv.1 hgit).2
+      simp only at hle ⊢
+      refine ⟨by simp [hgit], h2, ?_⟩
+      omega
+
+/-- the git flag, once set, stays set to the end of the scan -/
+theorem headerLoop_isGit (strip : Int) : ∀ (fuel : Nat) (st st' : HState),
+    st.isGit = true → headerLoop strip fuel st = .ok st' → st'.isGit = true := by
+  intro fuel
+  induction fuel with
+  | zero => intro st st' hg h; simp [headerLoop] at h; subst h; exact hg
+  | succ fuel ih =>
+    intro st st' hg h
+    rw [headerLoop] at h
+    split at h
+    · simp only [Except.ok.injEq] at h; subst h; exact hg
+    · split at h
+      · simp at h
+      · rename_i st1 hstep
+        refine ih st1 st' ?_ h
+        rcases (headerStep_inv2 _ _ _ _ _ hstep).2.1 with ⟨e, _⟩ | ⟨_, e, _⟩
+        · rw [e]; exact hg
+        · exact e
+      · rename_i st1 hstep
+        simp only [Except.ok.injEq] at h; subst h
+        rcases (headerStep_inv2 _ _ _ _ _ hstep).2.1 with ⟨e, _⟩ | ⟨_, e, _⟩
+        · rw [e]; exact hg
+        · exact e
+
+/-- the format the header scan returns, in terms of the final scan state -/
+theorem parseHeader_state (par : Parser) (patch : Patch) (strip : Int) (body : Bool) (p : Patch) (info : HeaderInfo) (par' : Parser)
+    (h : parseHeader par patch strip = .ok (body, p, info, par')) :
+    ∃ st, headerLoop strip (par.s.rest.length + 2) { par := par, patch := patch } = .ok st ∧ ScanInv st ∧
+      info.linesTillFirstHunk = st.ltfh ∧ info.format = p.format ∧ body = st.shouldParseBody ∧
+      p.format = (if st.isGit then Format.git else if !st.foundFirstHunk then Format.unknown else st.patch.format) := by
+  unfold parseHeader at h
+  simp only [] at h
+  split at h
+  · simp at h
+  · rename_i st hl
+    have hinv := headerLoop_scanInv strip _ _ _ ⟨by simp, by simp, by simp⟩ rfl hl
+    split at h
+    · simp at h
+    · simp only [Except.ok.injEq, Prod.mk.injEq] at h
+      obtain ⟨hb, hp, hi, _⟩ := h
+      subst hi
+      have hfmt : p.format = (if st.isGit then { st.patch with format := .git }
+             else if !st.foundFirstHunk then { st.patch with format := .unknown } else st.patch).format := by
+        rw [← hp]; exact opAdjust_format _ _ _
+      refine ⟨st, hl, hinv, rfl, ?_, hb.symm, ?_⟩
+      · exact hfmt.symm
+      · rw [hfmt]; split
+        · rfl
+        · split <;> rfl
+
+/-- **a header that found something has a first-hunk line**: the format returned is `unknown` (trailing garbage, whatever
+    format was given by option) unless a `diff --git` line or a range line followed by a body line was seen; so a format
+    other than `unknown` comes with `linesTillFirstHunk ≥ 1`, and a git format with `≥ 2` -/
+theorem parseHeader_found (par : Parser) (patch : Patch) (strip : Int) (body : Bool) (p : Patch) (info : HeaderInfo) (par' : Parser)
+    (h : parseHeader par patch strip = .ok (body, p, info, par')) :
+    info.format = p.format ∧
+    (p.format = .git ∨ p.format = .unknown ∨ p.format = .unified ∨ p.format = .normal ∨ p.format = .context) ∧
+    (p.format ≠ .unknown → 1 ≤ info.linesTillFirstHunk) ∧ (p.format = .git → 2 ≤ info.linesTillFirstHunk) := by
+  obtain ⟨st, _, hinv, hlt, hif, _, hfmt⟩ := parseHeader_state par patch strip body p info par' h
+  rw [hlt]
+  refine ⟨hif, ?_, ?_, ?_⟩
+  · rw [hfmt]
+    split
+    · exact Or.inl rfl
+    · split
+      · exact Or.inr (Or.inl rfl)
+      · rename_i hf
+        have := (hinv.2.2 (by simpa using hf)).2
+        rcases this with e | e | e <;> simp [e]
+  · intro hne
+    rw [hfmt] at hne
+    split at hne
+    · rename_i hg; have := (hinv.1 hg).2; omega
+    · split at hne
+      · exact absurd rfl hne
+      · rename_i hf
+        exact (hinv.2.2 (by simpa using hf)).1
+  · intro hg
+    rw [← hlt]; exact (parseHeader_git par patch strip body p info par' h hg).2.1
+
+/-- `parseHeader_le`, sharpened by the rule that the `diff --git` line belongs to the header: a pass that consumes nothing
+    is not a git section, is to be followed by the body parser from clear flags, and — unless it found nothing at all (format
+    `unknown`: the section loop stops) — its first hunk starts on the very first line of the section -/
+theorem parseHeader_progress (par : Parser) (patch : Patch) (strip : Int) (body : Bool) (p : Patch) (info : HeaderInfo) (par' : Parser)
+    (h : parseHeader par patch strip = .ok (body, p, info, par')) :
+    len par' + (info.linesTillFirstHunk - 1) = len par ∧
+    (len par' < len par ∨
+      (par'.s.eof = false ∧ par'.s.bad = false ∧ body = true ∧ p.format ≠ .git ∧
+        (p.format = .unknown ∨ info.linesTillFirstHunk = 1))) := by
+  obtain ⟨h1, h2⟩ := parseHeader_le par patch strip body p info par' h
+  refine ⟨h1, ?_⟩
+  rcases h2 with h2 | ⟨h2, h3, h4⟩
+  · exact Or.inl h2
+  · by_cases hlt : len par' < len par
+    · exact Or.inl hlt
+    · refine Or.inr ⟨h2, h3, h4, ?_, ?_⟩
+      · intro hg
+        exact hlt (parseHeader_git par patch strip body p info par' h hg).2.2
+      · by_cases hu : p.format = .unknown
+        · exact Or.inl hu
+        · have := (parseHeader_found par patch strip body p info par' h).2.2.1 hu
+          right; omega
 
 /-- **the section loop never runs out of fuel**: each pass consumes a line, or sets the eof flag (and the next pass stops) -/
 theorem parseAll_fuel (format : Format) (strip : Int) : ∀ (fuel : Nat) (par : Parser) (acc acc' : List Patch) (par' : Parser) (b : Bool),
